@@ -162,6 +162,8 @@ SeqProds(e, env) ==
         ELSE {})
   \cup (IF Prof.range /\ e = N
         THEN {P(Tok("Range", "", "", 0, 1), <<Hole(ICONST, env), Hole(N, env)>>)} ELSE {})
+  \* (lambda x: <sequence>)(<argument>): a value computed once, used inside the sequence
+  \cup {P(Tok("Let", Fresh(env), "", 0, 1), <<Hole(t, env), Hole(S(e), Ext(env, Fresh(env), t))>>) : t \in Prof.letseq}
 
 ItemProds(env) ==
      NumProds(env)
